@@ -89,14 +89,16 @@ class C04(Prop):
     design_ref = "DESIGN.md 4 C04"
     technique = ("Coq proof: interleaving machine with one step per atomic access of the AtomicU64 (fetch_add, fetch_max, swap, "
                  "load/CAS of fetch_update with arbitrary spurious failures), invariants preserved by every step hence every schedule, "
-                 "generic over the f64 arithmetic; sequential differential correspondence (bit patterns) + free-running stress on the real handles")
+                 "generic over the f64 arithmetic; sequential differential correspondence (bit patterns, per-call watchdog) + free-running stress and barrier-released rounds on the real handles")
     level_text = ("Theorems (Coq, any number of threads, any per-thread programs, every schedule, every spurious-CAS-failure script, every "
                   "implementation of f64 +/-): increments only => cell + pending = initial + all (mod 2^64) at every step and cell = sum mod 2^64 "
                   "when all are done; absolutes only => the cell never decreases along any execution and ends at max(initial, all arguments); "
                   "any mix of operations => the successful writes form a linearisation (each write = its operation applied to the value left by the "
                   "previous write, the cell is the fold of the log, thread u's log entries are exactly its completed calls in program order, a set "
                   "leaves exactly its value, at the end the log is a merge of all programs); record_many(v,n) delivers v exactly n times and record "
-                  "once through every route incl. the Arc<T> forwarding impl; no-op handles perform no access; the model has no Panic outcome (panics of the real code are caught by the driver and fail the case, per run). The model is tied to "
+                  "once through every route incl. the Arc<T> forwarding impl; no-op handles perform no access; the model has no Panic and no Hang outcome and every call of a thread left alone returns within an explicit number of its own steps for "
+                  "every finite spurious-failure script (panics of the real code, and calls of the real code that do not return, are caught by the driver "
+                  "as outcomes P / H and fail the case, per run). The model is tied to "
                   "/repo by running the real trait impls and handles (from_arc, clone, From<Arc>, Arc<Arc>, noop) and the model on the same call "
                   "sequences each run, by checking IntoF64 against an independent computation, by free-running multi-threaded stress runs whose final values "
                   "must equal the schedule-independent closed forms the theorems give, and by barrier-released rounds whose per-round end values must lie "
@@ -111,6 +113,11 @@ class C04(Prop):
                   "(no increment may be overwritten), gauge increments/decrements released together (exact sum) and set racing increments of distinct "
                   "powers of two (final = set value + a subset). A check-then-act split of an atomic RMW is caught by (ii) with high probability on a "
                   "multi-core machine, not with certainty; on a single core the rounds would rarely overlap (coverage reports rounds_with_observable_overlap). "
+                  "Hang detection is a resource bound, not a proof of non-termination: the driver runs the calls in a child process and reports H when "
+                  "the child has used 1 s of CPU time (0.05 s after three hangs in the same run; 300 s wall backstop) since a call was handed over without "
+                  "answering - a call needs microseconds of CPU, and CPU time does not grow while the machine is merely overloaded; the stress engines "
+                  "report a hang when NO thread makes progress for 10 s of wall time (3 s after a first hang). Under interference the CAS loop is "
+                  "lock-free, not wait-free; the termination theorem is for a thread left alone. "
                   "NaN: Coq's primitive floats have one NaN, so the RESULT of gauge arithmetic is compared as 'is NaN' (payload/sign of a produced "
                   "NaN unspecified); `set` and all non-NaN results are bit-exact, NaN operands (all payloads) are in the generator. f32 and "
                   "Duration conversions are compared with an independent python computation, not modelled in Coq; the integer IntoF64 impls are "
@@ -121,6 +128,7 @@ class C04(Prop):
         "results of f64 +/- that are NaN are compared as 'is NaN' only (normalised to the canonical quiet NaN on both sides); everything else bit-exact",
         "stress gauges use integer-valued increments with all partial sums below 2^53 (exact, commutative in binary64), so the expected final value is schedule-independent",
         "64-bit target (std AtomicU64, usize = u64)",
+        "a call that has consumed 1 s of CPU time in the driver's child process without returning (or 300 s of wall time), or a stress run in which no thread progresses for 10 s, is reported as not returning",
     ]
     trusted_extra = [
         "Coq primitive floats (kernel/VM native binary64 add/sub) and the SpecFloat conversions Prim2SF/SF2Prim (stdlib, no axioms used)",
@@ -130,7 +138,8 @@ class C04(Prop):
     rule = ("cases = sequential call sequences (1..14 calls) on one Arc<AtomicU64> and two logging HistogramFn doubles, through 7 routes (trait on the "
             "storage, trait on Arc<T>, handle, clone, From<Arc>, Arc<Arc>, noop); counter cases (increment/absolute with 0,1,2^63+-1,u64::MAX, wrap-around), "
             "gauge cases (increment/decrement/set/GaugeValue::update_value with +-0, +-inf, NaN payloads incl. signalling, subnormals, +-MAX, 2^53+-1, random "
-            "bits, integer-typed arguments at their extremes), histogram cases (record, record_many with counts 0..1000 swept once each plus usize::MAX where "
+            "bits, integer-typed arguments at their extremes; a directed family of increments/decrements that leave the stored bits unchanged: +-0.0 deltas, "
+            "deltas below half an ulp of a large value, any delta on +-inf, on NaN, set of the value already held and set of -0.0 over +0.0 / +0.0 over -0.0), histogram cases (record, record_many with counts 0..1000 swept once each plus usize::MAX where "
             "the call is O(1)), mixed counter+set cases; a case is non-trivial if at least two calls reach the storage or a record_many has count >= 2; "
             "distinct = distinct (case, outputs)")
 
@@ -149,6 +158,49 @@ class C04(Prop):
             else:
                 ops.append(["G", rand_route(rng), rng.weighted([(4, "i"), (4, "d"), (2, "s")]), rand_arg(rng)])
         return dict(init=rand_f64(rng), ops=ops)
+
+    # (held value, delta) pairs for which held +/- delta has the bits of held: zero deltas, deltas below half an
+    # ulp, anything on +-inf, anything on NaN (up to the payload); and `set` of the value already held
+    ABSORB = [(0x7E37E43C8800759C, 0x3FF0000000000000),   # 1e300 +- 1.0
+              (0x4340000000000000, 0x3FE0000000000000),   # 2^53 +- 0.5 (tie to even)
+              (0x3FF0000000000000, 0x0000000000000001),   # 1.0 +- min subnormal
+              (0x7FEFFFFFFFFFFFFF, 0x4330000000000000),   # MAX +- 2^52
+              (0x7FF0000000000000, 0x4014000000000000),   # +inf +- 5.0
+              (0xFFF0000000000000, 0x7FEFFFFFFFFFFFFF),   # -inf +- MAX
+              (0x7FF8000000000000, 0x3FF0000000000000),   # NaN +- 1.0
+              (0xFFF8000000000000, 0x0000000000000000),   # -NaN +- 0.0
+              (0x4059000000000000, 0x0000000000000000),   # 100.0 +- 0.0
+              (0x4059000000000000, 0x8000000000000000),   # 100.0 +- -0.0
+              (0x0000000000000000, 0x0000000000000000),   # 0.0 +- 0.0
+              (0x8000000000000000, 0x8000000000000000)]   # -0.0 +- -0.0
+
+    def absorb_case(self, k, route, kind, via_init):
+        held, delta = self.ABSORB[k % len(self.ABSORB)]
+        if kind == "s":
+            # set of the value already held; for even k: set of the OTHER zero (equal as f64, different bits)
+            a, b = (held, held) if k % 2 else ((0, 1 << 63) if k % 4 == 0 else (1 << 63, 0))
+            ops = [["G", route, "s", ["f", a]], ["G", route, "s", ["f", b]], ["G", "t", "s", ["f", a]]]
+            return dict(init=a if via_init else 0x3FF8000000000000, ops=ops[1:] if via_init else ops)
+        op = ["G", route, kind, ["f", delta]]
+        if via_init:
+            return dict(init=held, ops=[op, ["G", "t", "i", ["f", 0x3FF0000000000000]]])
+        return dict(init=0x4000000000000000, ops=[["G", "h", "s", ["f", held]], op, ["G", "t", "d", ["f", 0x3FF0000000000000]]])
+
+    def gen_absorb(self, rng):
+        c = self.absorb_case(rng.below(len(self.ABSORB)), rng.pick("tahcfx"), rng.weighted([(4, "i"), (4, "d"), (2, "s")]), rng.chance(1, 2))
+        for _ in range(rng.below(4)):      # and something after it
+            c["ops"].append(["G", rand_route(rng), rng.pick("ids"), rand_arg(rng)])
+        return c
+
+    def directed(self):
+        """one absorbed increment and one absorbed decrement per (held, delta) pair, routes rotating"""
+        cases = []
+        for k in range(len(self.ABSORB)):
+            cases.append(self.absorb_case(k, "tahcfx"[k % 6], "i", k % 2 == 0))
+            cases.append(self.absorb_case(k, "tahcfx"[(k + 3) % 6], "d", k % 2 == 1))
+        for k, route in enumerate("hctafx" + "ht"):
+            cases.append(self.absorb_case(k, route, "s", k % 3 == 0))
+        return cases
 
     def gen_hist(self, rng):
         ops = []
@@ -194,11 +246,11 @@ class C04(Prop):
         return cases
 
     def gen(self, rng, n):
-        cases = self.sweep() if n >= 1000 else self.sweep()[::8]
+        cases = self.directed() + (self.sweep() if n >= 1000 else self.sweep()[::8])
         while len(cases) < n:
             k = rng.below(20)
             if k < 8:
-                cases.append(self.gen_gauge(rng))
+                cases.append(self.gen_absorb(rng) if rng.chance(1, 6) else self.gen_gauge(rng))
             elif k < 15:
                 cases.append(self.gen_counter(rng))
             elif k < 18:
@@ -234,6 +286,8 @@ class C04(Prop):
         for t in line.split():
             if t == "P":
                 out.append(["P"])
+            elif t == "H":
+                out.append(["H"])            # the call did not return (driver watchdog); nothing follows it
             elif t[0] in "cv":
                 out.append([t[0], int(t[1:])])
             elif t == "h-":
@@ -274,6 +328,8 @@ class C04(Prop):
         for o in out:
             if o[0] == "P":
                 xs.append("OPanic")
+            elif o[0] == "H":
+                xs.append("OHang")
             elif o[0] == "c":
                 xs.append("OCell %s" % cq_N(o[1]))
             elif o[0] == "v":
@@ -440,6 +496,11 @@ class C04(Prop):
     def judge_stress(exp, got):
         """the property on an observed stress result (closed forms from C04_counter_sum_mod_2_64,
         C04_absolute_monotone, C04_gauge_linearizable + exact integer arithmetic, C04_record_many_exact)"""
+        if got.get("died"):
+            return "the driver's worker process died during the run"
+        if got.get("hang"):
+            return ("a handle operation did not return: %d thread(s) still inside a call after no thread made progress for the stall limit"
+                    % got["hang"])
         if got["panics"] != 0:
             return "a handle operation panicked"
         k = exp["kind"]
@@ -487,6 +548,10 @@ class C04(Prop):
         """-> (reason | None, number of rounds in which the calls demonstrably overlapped)"""
         kind, T, start, p = run["kind"], run["T"], run["start"], run["p"]
         ends = got["ends"]
+        if got.get("died"):
+            return "the driver's worker process died during the run", 0
+        if got.get("hang_round"):
+            return "round %d did not finish: a handle operation did not return (no progress for the stall limit)" % got["hang_round"], 0
         if got["panics"] != 0:
             return "a handle operation panicked", 0
         if len(ends) != run["rounds"]:
@@ -556,7 +621,10 @@ class C04(Prop):
         samples = 0
         by_kind = {}
         for (line, exp), o in zip(runs, outs):
-            got = {k: int(v) for k, v in (t.split("=") for t in o.split())}
+            got = {k: int(v) for k, v in (t.split("=") for t in o.split() if "=" in t)}
+            got.setdefault("hang", 0)
+            for k in ("final", "panics", "samples", "nonmonotone", "delivered", "badvalue"):
+                got.setdefault(k, 0)
             samples += got["samples"]
             by_kind[exp["kind"]] = by_kind.get(exp["kind"], 0) + 1
             why = self.judge_stress(exp, got)
@@ -569,9 +637,10 @@ class C04(Prop):
             raise core.MachineryBroken("c04 rounds run failed: rc=%s %s" % (rc, err[-1000:]))
         raced_total = 0
         for run, o in zip(rruns, outs):
-            kv = dict(t.split("=", 1) for t in o.split())
-            got = dict(panics=int(kv["panics"]), samples=int(kv["samples"]), nonmonotone=int(kv["nonmonotone"]),
-                       ends=[int(v) for v in kv["ends"].split(",") if v])
+            kv = dict(t.split("=", 1) for t in o.split() if "=" in t)
+            got = dict(panics=int(kv.get("panics", 0)), samples=int(kv.get("samples", 0)), nonmonotone=int(kv.get("nonmonotone", 0)),
+                       hang_round=int(kv.get("hang_round", 0)), died=int(kv.get("died", 0)),
+                       ends=[int(v) for v in kv.get("ends", "").split(",") if v])
             samples += got["samples"]
             why, raced = self.judge_rounds(run, got)
             raced_total += raced
